@@ -171,6 +171,7 @@ type c09Config struct {
 	ListenErrAt int
 	CloseErr    bool
 	BadTurnURL  bool // a second TURN URL without credentials follows the valid one (accepted at construction, skipped by the gatherer)
+	LongStunTimeout bool // STUN gather timeout 10 s instead of 60 ms: cancellation, not the timeout, has to end pending exchanges
 }
 
 func c09ConfigGen() *rapid.Generator[c09Config] {
@@ -189,12 +190,13 @@ func c09ConfigGen() *rapid.Generator[c09Config] {
 		c.TurnProto = rapid.SampledFrom([]string{"udp", "tcp"}).Draw(t, "turnProto")
 		c.TurnMode = rapid.SampledFrom([]string{"ok", "ok", "allocate-blocks", "allocate-blocks", "listen-error", "allocate-error", "factory-error", "relay-linklocal"}).Draw(t, "turnMode")
 		c.Mux = rapid.SampledFrom([]string{"", "", "udp", "tcp", "udp-srflx"}).Draw(t, "mux")
-		c.Rewrite = rapid.SampledFrom([]string{"", "", "srflx-mapped", "srflx-mapped-2", "srflx-drop", "host-append", "host-dup", "relay-drop", "relay-append"}).Draw(t, "rewrite")
+		c.Rewrite = rapid.SampledFrom([]string{"", "", "srflx-mapped", "srflx-mapped-2", "srflx-mapped-unusable-first", "srflx-drop", "host-append", "host-dup", "relay-drop", "relay-append"}).Draw(t, "rewrite")
 		if rapid.IntRange(0, 4).Draw(t, "listenErr") == 0 {
 			c.ListenErrAt = rapid.IntRange(1, 4).Draw(t, "listenErrAt")
 		}
 		c.CloseErr = rapid.IntRange(0, 5).Draw(t, "closeErr") == 0
 		c.BadTurnURL = rapid.IntRange(0, 3).Draw(t, "badTurnURL") == 0
+		c.LongStunTimeout = rapid.IntRange(0, 3).Draw(t, "longStunTimeout") == 0
 
 		return c
 	})
@@ -245,7 +247,12 @@ func newC09World(cfg c09Config, extra ...AgentOption) (*c09World, error) {
 	nts := []NetworkType{NetworkTypeUDP4}
 	opts := []AgentOption{
 		WithNet(w.fn), WithLoggerFactory(lf), WithMulticastDNSMode(MulticastDNSModeDisabled),
-		WithCandidateTypes(cfg.Types), WithSTUNGatherTimeout(60 * time.Millisecond),
+		WithCandidateTypes(cfg.Types),
+	}
+	if cfg.LongStunTimeout {
+		opts = append(opts, WithSTUNGatherTimeout(10*time.Second))
+	} else {
+		opts = append(opts, WithSTUNGatherTimeout(60*time.Millisecond))
 	}
 	var urls []*stun.URI
 	if hasType(cfg.Types, CandidateTypeServerReflexive) || hasType(cfg.Types, CandidateTypeRelay) {
@@ -310,6 +317,11 @@ func newC09World(cfg c09Config, extra ...AgentOption) (*c09World, error) {
 	case "srflx-mapped":
 		if hasType(cfg.Types, CandidateTypeServerReflexive) {
 			opts = append(opts, WithAddressRewriteRules(AddressRewriteRule{External: []string{"203.0.113.9"}, AsCandidateType: CandidateTypeServerReflexive}))
+		}
+	case "srflx-mapped-unusable-first":
+		// the first external address of the rule is one the agent never publishes (IPv6 link-local)
+		if hasType(cfg.Types, CandidateTypeServerReflexive) {
+			opts = append(opts, WithAddressRewriteRules(AddressRewriteRule{External: []string{"fe80::1", "203.0.113.11"}, Local: "0.0.0.0", AsCandidateType: CandidateTypeServerReflexive, Mode: AddressRewriteReplace}))
 		}
 	case "srflx-mapped-2":
 		if hasType(cfg.Types, CandidateTypeServerReflexive) {
@@ -379,11 +391,14 @@ func (w *c09World) gather() error {
 }
 
 // waitCycles waits for every started gather cycle to wind down; false = not within 20 s.
-func (w *c09World) waitCycles() bool {
+func (w *c09World) waitCycles() bool { return w.waitCyclesWithin(20 * time.Second) }
+
+func (w *c09World) waitCyclesWithin(limit time.Duration) bool {
+	deadline := time.After(limit)
 	for _, d := range w.cycles {
 		select {
 		case <-d:
-		case <-time.After(20 * time.Second):
+		case <-deadline:
 			return false
 		}
 	}
@@ -544,6 +559,11 @@ func TestVerif_C09_SocketTally(t *testing.T) {
 					lbl["reply-after-cancellation"] = true
 				}
 				w.releaseEverything()
+				if cfg.LongStunTimeout && !w.waitCyclesWithin(3*time.Second) {
+					// cancellation must end a pending STUN exchange; waiting for the (10 s) gather timeout is not "immediately"
+					st.Fail(rt, "C09/cancel/cycle-holds-sockets-until-stun-timeout", "3 s after Restart the cancelled cycle is still running (STUN timeout 10 s): open %v\nconfig %+v ops %s",
+						func() []string { o, _, _ := w.fn.tally(); return o }(), cfg, strings.Join(ops, "; "))
+				}
 				if !w.waitCycles() {
 					dead, dump := vfStuck("pion/ice/v4.(*Agent)")
 					if dead {
@@ -602,6 +622,10 @@ func TestVerif_C09_SocketTally(t *testing.T) {
 			ops = append(ops, "close(final)")
 		}
 		w.releaseEverything()
+		if cfg.LongStunTimeout && !w.waitCyclesWithin(3*time.Second) {
+			st.Fail(rt, "C09/cancel/cycle-holds-sockets-until-stun-timeout", "3 s after Close a gathering cycle is still running (STUN timeout 10 s): open %v\nconfig %+v ops %s",
+				func() []string { o, _, _ := w.fn.tally(); return o }(), cfg, strings.Join(ops, "; "))
+		}
 		if !w.waitCycles() {
 			st.Inconclusive()
 			rt.Fatalf("VERIF-INCONCLUSIVE: gather cycle still running 20 s after Close")
